@@ -100,9 +100,9 @@ static Op parse_op(const std::string& s) {
   Op o;
   o.kind = t[0].at(0);
   switch (o.kind) {
-  case 'W': case 'F': case 'C': case 'U': case 'G': case 'D':
+  case 'W': case 'F': case 'C': case 'U': case 'G': case 'D': case 'X': case 'Z':
     o.e = std::stoi(t.at(1)); o.t = std::stoll(t.at(2)); break;
-  case 'E': o.e = std::stoi(t.at(1)); break;
+  case 'E': case 'Y': o.e = std::stoi(t.at(1)); break;
   case 'N': case 'T': case 'P': o.t = std::stoll(t.at(1)); break;
   case 'L':
     o.t = std::stoll(t.at(1)); o.d = std::stoll(t.at(2)); o.m = std::stoll(t.at(3));
@@ -134,6 +134,7 @@ static std::vector<std::string> split_list(const std::string& s0, char c) {
 
 struct Run {
   ExternalScheduler                            own_sched;
+  ExternalScheduler                            other_sched;  // a second scheduler (ops X/Z/Y), never dispatched
   std::unique_ptr<LoopThread>                  thread;   // only for cases with L ops
   torrent::system::Scheduler*                  schedp{};
   torrent::system::Scheduler&                  sched_ref() { return *schedp; }
@@ -155,6 +156,9 @@ struct Run {
     case 'G': sched_ref().update_wait_for(en, us(o.t)); break;
     case 'D': sched_ref().update_wait_for_ceil_seconds(en, us(o.t)); break;
     case 'E': sched_ref().erase(en); break;
+    case 'X': other_sched.wait_until(en, us(o.t)); break;
+    case 'Z': other_sched.update_wait_until(en, us(o.t)); break;
+    case 'Y': other_sched.erase(en); break;
     case 'N': *is_next = true; *next = sched_ref().next_timeout(us(o.t)).count(); break;
     case 'T': sched_ref().set_cached_time(us(o.t)); break;
     default: throw std::runtime_error("op in script");
@@ -323,7 +327,7 @@ static std::string run_case(const std::string& line) {
   out += "]";
   // ~SchedulerEntry asserts !is_scheduled(): unschedule through the public API first
   for (int e = 0; e < n; e++)
-    if (r.entries[e]->is_scheduled()) r.sched_ref().erase(r.entries[e].get());
+    if (r.entries[e]->is_scheduled()) r.entries[e]->m_handle->scheduler->erase(r.entries[e].get());
   if (has_loop) {
     torrent::ThreadMain::set_thread_base(nullptr);
     torrent::system::Thread::m_self = nullptr;
